@@ -39,11 +39,11 @@ CHECKS = {
          "12 magnitudes x 36 scale-spelling pairs, all chains up to length 4, every ordered pair of 21 prefixed scale words (m k n G milli kilo on K, degC, degF) x 5 magnitudes and chains through a prefixed scale, and several casts in one query, sums and differences of two temperatures over all 36 spelling pairs, and every placement of a scale that is not alone with power one (powers, products, quotients) - the latter must be refused or treated as an interval.",
          "The affine formulas are written out in the harness.", "3 C09"),
  "C11": ("exploration", E1 + ": token soups, unicode strings and 1/2-edit neighbourhoods of seeds; no panic/abort/hang, located errors; both build profiles and the real binary on a stride",
-         "All token sequences <=3 (4) over 46 tokens (incl. values that are zero only after a unit conversion) x joiner patterns, all unicode strings <=4 (5) over 30 code points, every 1-edit (thorough 2-edit) of 66 seeds, in release and debug-assertion builds; each result must display or be an error with an in-bounds char-boundary range that the diagnostic renderer accepts; worker processes attribute aborts and hangs to the input.",
+         "All token sequences <=3 (4) over 46 tokens (incl. values that are zero only after a unit conversion) x joiner patterns, all unicode strings <=4 (5) over 30 code points, every 1-edit (thorough 2-edit) of 66 seeds, a repetition/nesting ladder (k up to 257) over 1..2 structural tokens, in release and debug-assertion builds; each result must display or be an error with an in-bounds char-boundary range that the diagnostic renderer accepts; worker processes attribute aborts and hangs to the input.",
          "Inputs outside the statement's numeric bounds (>3-digit exponents, >2-digit powers) or with possibly astronomically large values are counted and skipped.", "3 C11"),
  "C12": ("exploration", E1 + ": all strings up to length 5 (thorough 6) over a 40-symbol alphabet through lexer and parser",
-         "105 M (thorough 4.2 G) strings, every sequence of up to 6 whole tokens over a 12-token alphabet (3 M), and every string up to length 3 parsed right after a unit string with trailing content went through str::parse::<Compound> on the same thread: tokens non-empty, on char boundaries, tile the input; the tree's token leaves equal the token stream.",
-         "Longer strings only via C11.", "3 C12"),
+         "105 M (thorough 4.2 G) strings, every sequence of up to 6 whole tokens over a 12-token alphabet (3 M), every string up to length 3 parsed right after a unit string with trailing content went through str::parse::<Compound> on the same thread, and every sequence of 1..3 tokens repeated k times / nested k deep in ten wrappers for k up to 257: tokens non-empty, on char boundaries, tile the input; the tree's token leaves equal the token stream.",
+         "Long inputs are periodic ones only (repetition/nesting ladder); otherwise via C11.", "3 C12"),
  "C13": ("exploration", E1 + ": field-law instances over literal quantities and every shipped fact, both sides evaluated by the real code",
          "Commutativity over pairs of ~140 literal quantities (incl. prefixed bases, one unit under several prefixes and powers, derived-per-base compounds) and ~770 facts (all multi-word phrases plus every typeable single-word fact that is not a unit word), a-a, a/a for all, associativity and distributivity over a core of triples; both sides compared in SI normal form within one Db instance.",
          "Independent unit table for the SI normal form; plain-number adoption and zero divisors are outside the laws' preconditions.", "3 C13"),
@@ -51,7 +51,7 @@ CHECKS = {
          "Every assignment of documents to indexing workers (symmetry-reduced), every order of equally sized segments, merge timing and merge input order is enumerated on the real Db::in_memory()/Db::open() over reduced data sets of shipped constants that tie for the ambiguous probes; every session of every execution must answer the probe set like the reference execution (and own-word probes must find their constant); on-disk layouts are read back from the real index; the full shipped data runs under corner schedules, each followed by every single deviation at every tie-order and merge-timing point (so a build that leaves several equal-sized segments is explored in every segment order). Probes: every constant's full word set, every distinct single word of the data set, word prefixes of length 1..3 and ordered pairs of word initials; every probe is asked twice per session (one database answering differently is a violation in itself).",
          "Layout depends on scheduling only through the four gated seams (argued in DESIGN 2.6, cross-checked by reading real on-disk layouts back); nondeterminism that does not pass through those seams is not enumerated, only observed through the run's independent builds and double-asked probes; vendored tantivy = registry 0.19.2 + vendor/tantivy-gates.patch (checked in setup); hook H1 (asset directory seam) supplies the reduced data sets.", "3 C14"),
  "C15": ("fault_enumeration", "exhaustive crash-point (and torn-write) enumeration of the real start-up under an LD_PRELOAD fault injector, crossed with prior directory states and followed by crash-free starts",
-         "The real Db::open() is killed before every one of its file-system mutations (every point; thorough also torn writes and second crashes) from each prior directory state; after each crash: meta.json current => index complete (checked with tantivy independently), and two crash-free starts must answer the probe set exactly like a fresh in-memory database. Every listed prior state (absent, other major version, next patch version / build suffix over an index with other content, other data, missing/truncated/garbage metadata incl. every proper prefix, 18 well-formed JSON documents of the wrong shape, missing index directory) is also started crash-free.",
+         "The real Db::open() is killed before every one of its file-system mutations (every point; thorough also torn writes and two-crash histories: every pair of crash points from the absent prior) from each prior directory state; after each crash: meta.json current => index complete (checked with tantivy independently), and two crash-free starts must answer the probe set exactly like a fresh in-memory database. Every listed prior state (absent, other major version, next patch version / build suffix over an index with other content, other data, missing/truncated/garbage metadata incl. every proper prefix, 18 well-formed JSON documents of the wrong shape, missing index directory) is also started crash-free.",
          "Process-crash model (no power-loss reordering); tantivy's raw-syscall renames are bracketed by interposed calls; the crashed directory is the replay artefact.", "3 C15"),
  "C16": ("exploration", E1 + ": every shipped constant x every permutation of its words",
          "All 878 constants decoded independently; every typeable permutation of their words is looked up with descriptions on; the returned constant must carry the words and its value and unit must equal those stored in the data file (read without the subject's types).",
@@ -60,10 +60,10 @@ CHECKS = {
          "CBOR (and JSON for rationals) round trips incl. machine-word boundaries 2^k-1, 2^k, 2^k+1 (k=7..128) as numerator and denominator and compounds as the parser builds them from every prefix spelling x 16 unit words x 5 shapes; ids pairwise distinct and equal to the documented ids pinned in the harness; decoded units are the same statics.",
          "serde_cbor/serde_json are faithful carriers.", "3 C17"),
  "C19": ("exploration", E1 + ": query family x {default,--exact} through the real binary vs text rebuilt from library results",
-         "Value shapes x unit shapes x error/multi-result/fact compositions, every documented unit alone / squared / as denominator / in products and quotients / prefixed, 2- and 3-digit exponents, negative tiny/huge values, every ordered pair and triple of six result kinds in one query, both modes, run through the `any` binary built from /repo and compared line by line with the stated printing rule applied to the library's results; every printed unit is additionally re-read with the harness's own vocabulary table and must denote the computed unit (SI scale and dimensions), with a blank iff it has a numerator part and no plural form when the value is one; in decimal mode the printed number is re-read and judged against the value with C08's oracle.",
+         "Value shapes x unit shapes x error/multi-result/fact compositions, every documented unit alone / squared / as denominator / in products and quotients / prefixed, 2- and 3-digit exponents, negative tiny/huge values, every ordered pair and triple of six result kinds in one query, both modes, run through the `any` binary built from /repo and compared line by line with the stated printing rule applied to the library's results; every printed unit is additionally re-read with the harness's own vocabulary table and must denote the computed unit (SI scale and dimensions), with a blank iff it has a numerator part, no plural form when the value is one and none after the slash; in decimal mode the printed number is re-read and judged against the value with C08's oracle.",
          "Decimal rendering is taken from the library (C08 judges it); no exit code is required; two display-only names (`fl oz`, `g` for gforce) are aliased in the re-reader.", "3 C19"),
  "C18": ("model_checking", "explicit-state search over operation histories executed on the real Db (state = history, canonicalised by probe-set answers) plus exhaustive expression enumeration",
-         "All histories of length <=3 (4) over 18 operations (9 queries incl. a word shared by several constants, a full word set containing it, and a three-result query failing in the middle; describe on/off) on one shared Db: every step must answer as on a fresh Db and leave the probe-set answers unchanged; all histories <=3 over 20 lookup-free unit/number/function queries against hand-written exact expectations; histories over up to 16 nearly colliding full word sets against the independently decoded constants; 440 multi-result queries (incl. casts) whose computed results must all be described whatever fails around them; every distinct single word of the data set (described constant = value returned); all expressions with <=3 operands over literals and fact phrases with describe on/off.",
+         "All histories of length <=3 (4) over 18 operations (9 queries incl. a word shared by several constants, a full word set containing it, and a three-result query failing in the middle; describe on/off) on one shared Db: every step must answer as on a fresh Db and leave the probe-set answers unchanged; all histories <=3 over 20 lookup-free unit/number/function queries against hand-written exact expectations; histories over up to 16 nearly colliding full word sets against the independently decoded constants; 440 multi-result queries (incl. casts) whose computed results must all be described whatever fails around them; every distinct single word of the data set (described constant = value returned); the real binary with/without --describe over 8 phrases (sourced and sourceless constants): every ordered pair and triple of results and every product must print each phrase's own single-phrase description lines in order; all expressions with <=3 operands over literals and fact phrases with describe on/off.",
          "The model is the implementation itself (no abstraction): every explored trace is an implementation trace.", "3 C18"),
 }
 
